@@ -270,7 +270,9 @@ class StringHelpers(object):
                "known": [], "backends": {}, "samples": [], "solver_time": 0.0, "covers": [], "extra_coverage": {}}
         fns = [W.kernel32_lstrlenA, W.kernel32_lstrlenW, W.kernel32_lstrcmpA, W.kernel32_lstrcmpW, W.kernel32_lstrcpyA,
                W.kernel32_lstrcpyW, W.kernel32_lstrcpyn, W.kernel32_lstrcatA, W.msvcrt_strlen, W.my_lstrcmp, W.my_strcpy,
-               W.my_strlen, W.my_lstrcat, OC.get_win_str_a, OC.get_win_str_w, OC.set_win_str_a, OC.set_win_str_w]
+               W.my_strlen, W.my_lstrcat, OC.get_win_str_a, OC.get_win_str_w, OC.set_win_str_a, OC.set_win_str_w, W.msvcrt_wcslen,
+               W.msvcrt_wcscpy, W.msvcrt__mbscpy, W.kernel32_lstrcpyW, W.msvcrt_wcsncpy, W.msvcrt_wcscmp, W.kernel32_lstrcmpW,
+               W.msvcrt_wcscat, W.kernel32_lstrcatW, W.ntdll_RtlComputeCrc32]
         for f in fns:
             try:
                 h = loader.func_text_hash(f)
@@ -317,6 +319,58 @@ class StringHelpers(object):
                 ok = out == ("ret", 0x100) and len(j.vm.writes) == 1 and j.vm.writes[0][0] == 0x100 and bytes(j.vm.writes[0][1]) == a + b + b"\x00"
                 record(ok, "lstrcatA", "%r,%r -> %r writes %r" % (s1, s2, out, j.vm.writes))
                 n += 1
+        # ---- wide-character helpers: the FINAL memory image (initial bytes + writes in order) is compared with C semantics ----
+        def wide(bs):
+            return b"".join(bytes([c, 0]) for c in bs)
+
+        def final_image(j, base, size):
+            img = bytearray(j.vm.get_mem(base, size))
+            for ad, data in j.vm.writes:
+                data = bytes(data)
+                for k, b in enumerate(data):
+                    if base <= ad + k < base + size:
+                        img[ad + k - base] = b
+            return bytes(img)
+        OLD = bytes(range(0xA0, 0xA0 + 24))         # non-zero previous content of the destination buffer
+        for s1 in imgs:
+            a = cstr(s1)
+            w1 = wide(a) + b"\x00\x00"
+            out, j = self.run_case("wcslen", W.msvcrt_wcslen, [0x100], {0x100: w1})
+            record(out == ("ret", len(a)), "msvcrt_wcslen", "%r -> %r (want %d)" % (w1, out, len(a)))
+            for name, fn in (("wcscpy", W.msvcrt_wcscpy), ("_mbscpy", W.msvcrt__mbscpy), ("lstrcpyW", W.kernel32_lstrcpyW)):
+                out, j = self.run_case(name, fn, [0x300, 0x100], {0x100: w1, 0x300: OLD})
+                want = wide(a) + b"\x00\x00" + OLD[len(a) * 2 + 2:]
+                got = final_image(j, 0x300, len(OLD)) if out[0] == "ret" else None
+                record(out == ("ret", 0x300) and got == want, name, "%r -> %r, destination %r (want %r)" % (w1, out, got, want))
+            for nn in range(0, 6):
+                out, j = self.run_case("wcsncpy", W.msvcrt_wcsncpy, [0x300, 0x100, nn], {0x100: w1, 0x300: OLD})
+                body = wide(a[:nn])
+                want = body + b"\x00" * (2 * nn - len(body)) + OLD[2 * nn:]
+                got = final_image(j, 0x300, len(OLD)) if out[0] == "ret" else None
+                record(out == ("ret", 0x300) and got == want, "msvcrt_wcsncpy",
+                       "%r, n=%d -> %r, destination %r (want %r: n wide characters, NUL padded)" % (w1, nn, out, got, want))
+            n += 1
+            for s2 in imgs:
+                b = cstr(s2)
+                w2 = wide(b) + b"\x00\x00"
+                for name, fn in (("wcscmp", W.msvcrt_wcscmp), ("lstrcmpW", W.kernel32_lstrcmpW)):
+                    out, j = self.run_case(name, fn, [0x100, 0x200], {0x100: w1, 0x200: w2})
+                    ok = out[0] == "ret" and sign(out[1]) == sign((list(a) > list(b)) - (list(a) < list(b)))
+                    record(ok, name, "%r,%r -> %r" % (w1, w2, out))
+                for name, fn in (("wcscat", W.msvcrt_wcscat), ("lstrcatW", W.kernel32_lstrcatW)):
+                    dst0 = w1 + OLD[len(w1):]
+                    out, j = self.run_case(name, fn, [0x300, 0x200], {0x300: dst0, 0x200: w2})
+                    want = wide(a + b) + b"\x00\x00" + dst0[len(a + b) * 2 + 2:]
+                    got = final_image(j, 0x300, len(dst0)) if out[0] == "ret" else None
+                    record(out == ("ret", 0x300) and got == want, name, "%r,%r -> %r, destination %r (want %r)" % (w1, w2, out, got, want))
+                n += 1
+        # ---- checksum helper ----
+        import zlib
+        for data in (b"", b"a", b"abc", bytes(range(7))):
+            for init in (0, 1, 0xFFFFFFFF, 0x12345678):
+                out, j = self.run_case("crc32", W.ntdll_RtlComputeCrc32, [init, 0x100, len(data)], {0x100: data + b"\x00"})
+                record(out == ("ret", zlib.crc32(data, init) & 0xFFFFFFFF), "ntdll_RtlComputeCrc32",
+                       "%r, init %#x -> %r (want %#x)" % (data, init, out, zlib.crc32(data, init) & 0xFFFFFFFF))
         res["backends"]["runtime-contract(bounded)"] = res["discharged"]
         res["extra_coverage"] = {"bounded_runtime_cases": n}
         res["samples"] = [{"case": "lstrcmpA(%r, %r)" % (imgs[3], imgs[5]), "verdict": "sign matches C strcmp"}]
